@@ -31,6 +31,7 @@ RULE = ("lock-step differential: every operation of a history (awaited call, fai
 RULE += (" Also: results None/0/False/''/() ; keyword names self/key/args/typed; failing calls raising every standard exception type (incl. falsy exception instances); bound/unbound access sharing one store.")
 RULE += (' Also: lru_cache(maxsize=<anything>) construction against functools; opaque results.')
 RULE += (' Also: the decorator applied directly with typed (lru_cache(fn, True)); results that happen to be awaitable.')
+RULE += (' Also: re-entrant histories with warm-up nodes (the first run for an argument calls the cache for the same argument).')
 ASSUMPTIONS = ["functools.lru_cache (C implementation of the running 3.12 interpreter) is the reference",
                "cache_discard has no stdlib twin: reference is the cross-validated model"]
 EXHAUSTIVE_SUBSPACES = 'all histories of length <= 4 (thorough: 5) over 7 operations for maxsize 1 and 2'
